@@ -300,6 +300,46 @@ Print Assumptions C16_atimes_loops_eq_stencil_2d.
 Example C16_example_loops : (2 <= npmf (px sh22) (nxg sh22))%Z /\ (2 <= npmf (py sh22) (nyg sh22))%Z.
 Proof. split; vm_compute; discriminate. Qed.
 
+(* Consistency (the algebraic content of "second order"): when the gradient data are the gradient of ANY polynomial U of
+   total degree <= 3 evaluated at the bin centres, the divergence at every interior PMF node equals the discrete Laplacian
+   of the samples of U at the nodes EXACTLY - anisotropic widths, any origin, periodic or not.  Hence for a C^4 surface
+   the local truncation error of the discrete Poisson problem is a fourth-order Taylor remainder, O(w^2).
+   (Not proved: the stability constant that turns this into a convergence rate, and the boundary nodes; the check measures
+   the observed order, 2.0-2.2.) *)
+Theorem C16_scheme_exact_on_cubics_2d : forall (sc : smooth_cfg) (sm : bool) (sh : shape2 (T:=R)) (st : state2 (T:=R))
+    (x0 y0 c00 c10 c01 c20 c11 c02 c30 c21 c12 c03 : R) (i j : Z),
+  (1 <= i <= npmf (px sh) (nxg sh) - 2)%Z -> (1 <= j <= npmf (py sh) (nyg sh) - 2)%Z -> wx sh <> 0%R -> wy sh <> 0%R ->
+  (forall a b, (a = i - 1 \/ a = i)%Z -> (b = j - 1 \/ b = j)%Z ->
+     gval2 Rops sc sm sh st (a, b) =
+     (cubUx c10 c20 c11 c30 c21 c12 (cenx sh x0 a) (ceny sh y0 b), cubUy c01 c11 c02 c21 c12 c03 (cenx sh x0 a) (ceny sh y0 b))) ->
+  div_value2 Rops sc sm sh st (i, j) =
+  atimes2 Rops sh (fun p => cubU c00 c10 c01 c20 c11 c02 c30 c21 c12 c03 (nodx sh x0 (fst p)) (nody sh y0 (snd p))) (i, j).
+Proof. intros. apply scheme_exact_on_cubics2; assumption. Qed.
+Print Assumptions C16_scheme_exact_on_cubics_2d.
+
+Theorem C16_scheme_exact_on_cubics_3d : forall (sc : smooth_cfg) (sm : bool) (sh : shape3 (T:=R)) (st : state3 (T:=R))
+    (x0 y0 z0 k000 k001 k002 k003 k010 k011 k012 k020 k021 k030 k100 k101 k102 k110 k111 k120 k200 k201 k210 k300 : R) (i j k : Z),
+  (1 <= i <= npmf (qx sh) (mxg sh) - 2)%Z -> (1 <= j <= npmf (qy sh) (myg sh) - 2)%Z -> (1 <= k <= npmf (qz sh) (mzg sh) - 2)%Z ->
+  vx sh <> 0%R -> vy sh <> 0%R -> vz sh <> 0%R ->
+  (forall a b c, (a = i - 1 \/ a = i)%Z -> (b = j - 1 \/ b = j)%Z -> (c = k - 1 \/ c = k)%Z ->
+     gval3 Rops sc sm sh st (a, b, c) =
+     (cub3x k100 k101 k102 k110 k111 k120 k200 k201 k210 k300 (cen3x sh x0 a) (cen3y sh y0 b) (cen3z sh z0 c),
+      cub3y k010 k011 k012 k020 k021 k030 k110 k111 k120 k210 (cen3x sh x0 a) (cen3y sh y0 b) (cen3z sh z0 c),
+      cub3z k001 k002 k003 k011 k012 k021 k101 k102 k111 k201 (cen3x sh x0 a) (cen3y sh y0 b) (cen3z sh z0 c))) ->
+  div_value3 Rops sc sm sh st (i, j, k) =
+  atimes3 Rops sh (fun p => cub3 k000 k001 k002 k003 k010 k011 k012 k020 k021 k030 k100 k101 k102 k110 k111 k120 k200 k201 k210 k300
+                             (nod3x sh x0 (fst (fst p))) (nod3y sh y0 (snd (fst p))) (nod3z sh z0 (snd p))) (i, j, k).
+Proof. intros. apply scheme_exact_on_cubics3; assumption. Qed.
+Print Assumptions C16_scheme_exact_on_cubics_3d.
+
+(* an interior node exists as soon as a dimension has 2 non-periodic bins (3 nodes), and the premise on the gradient data
+   holds e.g. for the zero polynomial on the empty grids *)
+Example C16_example_interior : (1 <= 1 <= npmf false 2 - 2)%Z /\
+  gval2 Rops (mkSmooth true 0 1) false (mkShape2 false false 2 2 1%R 1%R) (init2 Rops) (0, 0)%Z = (0%R, 0%R).
+Proof.
+  split; [vm_compute; split; discriminate|]. unfold gval2, get_grad2, init2. cbn. rewrite !Rmult_0_r. reflexivity.
+Qed.
+
 (* The iterations of the solver never increase the error in the energy ((-A)-) norm: for ANY surface xs that solves
    the discrete Poisson problem of the final gradients, |x_out - xs|_A <= |x_0 - xs|_A, whatever itmax and tol
    (exact arithmetic; uses symmetry, semi-definiteness, kernel = constants and the zero sum of the divergence).
